@@ -16,6 +16,7 @@ MODULES = {
     "C03": "c01_odegen",
     "C04": "c01_odegen",
     "C06": "c06_rates",
+    "C08": "c08_species",
     "C13": "c13_modifiers",
     "C14": "c14_network",
     "C15": "c14_network",
